@@ -39,16 +39,80 @@ def bounded_standin(reg, unit, seed, tier):
 
 
 def run_replay_file(path):
+    """Re-execute a replay file against the current tree (CHARTPARSE_REPO): exit 1 if the failure
+    reproduces, 0 if not."""
     rec = json.load(open(path))
     print(json.dumps({k: rec[k] for k in ("property", "unit", "obligation")}, indent=1))
     try:
         from . import native
         import contracts
         reg = contracts.build_registry()
-        ok, detail = native.replay_model(reg, {"name": rec["unit"], "engine": rec.get("engine")},
-                                         {"name": rec["obligation"], "model": rec.get("model"), "kind": rec.get("kind")})
-        print("native replay:", "REPRODUCED" if ok else "not reproduced", detail)
+        unit = {"name": rec["unit"], "engine": rec.get("engine")}
+        ob = {"name": rec["obligation"], "model": rec.get("model"), "kind": rec.get("kind")}
+        detail = (rec.get("native_replay") or {}).get("detail")
+        ok, d = False, "no replay recipe for this record"
+        if rec.get("kind") == "bounded" or (isinstance(detail, dict) and "tried" in detail):
+            # a failing input found by a native search: the search is seeded, re-run it
+            if isinstance(detail, dict) and isinstance(detail.get("input"), dict) and "text" in detail["input"]:
+                ok, d = _replay_text(detail["input"])
+            if not ok:
+                f = native.search(reg, unit, int(__import__("os").environ.get("VERIF_SEED", "0")), budget=6000, deadline_s=60)
+                ok, d = (f is not None), (f or "the seeded native search finds no failing input on this tree")
+        else:
+            ok, d = native.replay_model(reg, unit, ob)
+            if not ok:
+                f = native.search(reg, unit, int(__import__("os").environ.get("VERIF_SEED", "0")), budget=3000)
+                if f is not None:
+                    ok, d = True, f
+        print("native replay:", "REPRODUCED" if ok else "not reproduced", str(d)[:1500])
         return 1 if ok else 0
     except ImportError:
         print("native replay not available")
         return 0
+
+
+def _replay_text(inp):
+    """re-parse the recorded chart text and compare with the statement's reference"""
+    import io
+    import chartparse.chart as cc
+    from . import native_file as nf
+    text = inp["text"]
+    try:
+        want = eval(inp.get("want_tracks", "None"), {"Instrument": __import__("chartparse.instrument", fromlist=["x"]).Instrument,
+                                                       "Difficulty": __import__("chartparse.instrument", fromlist=["x"]).Difficulty})
+    except Exception:
+        want = None
+    lines = text.splitlines()
+    # recover the section list of a well-framed text
+    sections, k = [], 0
+    try:
+        while k < len(lines):
+            tag = lines[k][1:-1]
+            assert lines[k].startswith("[") and lines[k + 1] == "{"
+            j = k + 2
+            while lines[j] != "}":
+                j += 1
+            sections.append((tag, lines[k + 2:j]))
+            k = j + 1
+    except Exception:
+        sections = None
+    try:
+        chart, exc = cc.Chart.from_file(io.StringIO(text), want_tracks=want), None
+    except Exception as e:
+        chart, exc = None, e
+    from chartparse.exceptions import RegexNotMatchError, MissingRequiredField
+    if exc is not None and not isinstance(exc, (ValueError, RegexNotMatchError, MissingRequiredField)):
+        return True, f"parsing raised {type(exc).__name__}: {exc}"
+    if sections is None:
+        return False, "the recorded text is not well-framed; only the exception class was checked"
+    try:
+        ref, rexc = nf.reference(sections, want), None
+    except Exception as e:
+        ref, rexc = None, e
+    if (exc is None) != (rexc is None):
+        return True, f"real parse: {exc!r}; reference: {rexc!r}"
+    if exc is None:
+        bad = nf.compare(chart, ref, [])
+        if bad is not None and "warning" not in bad[0]:
+            return True, {"clause": bad[0], "observed": bad[1][:600]}
+    return False, "the recorded text parses as the statement's reference says"
